@@ -107,6 +107,11 @@ func main() {
 		}
 		fn := eng.fnByKey[k]
 		if fn == nil {
+			if at := strings.Index(k, "@"); at > 0 {
+				fn = eng.fnByKey[k[:at]] // key@view: the same function verified under another view
+			}
+		}
+		if fn == nil {
 			bindErrs = append(bindErrs, fmt.Sprintf("%s#bind: contract target not found in the repository", shortUnit(k)))
 			continue
 		}
@@ -219,12 +224,18 @@ func main() {
 		}
 		allObls = append(allObls, sw...)
 	}
+	if *prop != "" && *unitFilter == "" && *oblFilter == "" {
+		allObls = append(allObls, runLemmas(*verif, *prop, timeout, st)...)
+	}
 	rep := buildReport(eng, *prop, *tier, units, allObls, bindErrs, st, *verif)
 	rep.LoadS, rep.GenS, rep.SolveS = loadSecs, genSecs, solveSecs
 	rep.WallS = time.Since(start).Seconds()
 	if *verbose {
-		for _, j := range jobs {
-			fmt.Printf("%-9s %-70s %6.2fs %s %s\n", j.o.Status, j.o.Name, j.o.Time, j.o.Solver, j.o.Output)
+		for _, o := range allObls {
+			if o.Kind == "sweep" && o.Status == "proved" {
+				continue
+			}
+			fmt.Printf("%-9s %-70s %6.2fs %s %s\n", o.Status, o.Name, o.Time, o.Solver, o.Output)
 		}
 	}
 	code := rep.finish(*noEvidence || *prop == "")
